@@ -18,7 +18,8 @@ from engines import c05 as base
 
 RULE = ('recorder: the C05 scenarios ({gz, plain} x {single file, max_size rollover incl. 0}) x 1-3 lives on the same prefix, a later '
         'life appending or starting over (appending=False on a used prefix with an existing PREFIX.cdx: ~1/3 of the scenarios), with '
-        'cdx on in 85%; header blocks of 0-40 lines, CRLF/LF/mixed, folded, around and beyond the 4096-byte mark (Content-Type '
+        'cdx on in 85%; half of the lives are read from disk after every record-writing event while open, ~25% end abruptly '
+        '(forked child os._exit()s after k events, no close()) and are judged / continued from what is on disk; header blocks of 0-40 lines, CRLF/LF/mixed, folded, around and beyond the 4096-byte mark (Content-Type '
         'before and after it), Content-Type absent / garbage / with parameters / +,. subtypes / duplicated / odd case; '
         'hdr: generated header blocks + byte-level mutations incl. str.splitlines separators; mime/status: grammar + noise. '
         'non-trivial = a response record was written / non-empty input; distinct by canonical input')
